@@ -20,3 +20,8 @@ try:
     GENERATORS.append(gen_locks)
 except ImportError:
     pass
+try:
+    from translate_dummy import gen_dummy
+    GENERATORS.append(gen_dummy)
+except ImportError:
+    pass
